@@ -61,8 +61,7 @@ ROps(n) == {U(2, 3), U(3, 2), U(0, 3), U(1, 3), S(2, 3), S(0, 3), F(0), F(3)}
 ReplayQ(n) == {c \in {Conf(s, <<<<o1>>, <<o2>>>>) : s \in RSet(n), o1, o2 \in ROps(n)} : Enc(c.prog[1][1]) <= Enc(c.prog[2][1])}
 ThreeR(n) == {c \in {Conf(s, <<<<o1>>, <<o2>>, <<o3>>>>) : s \in RSet(n), o1, o2, o3 \in ROps(n)} :
                  Enc(c.prog[1][1]) <= Enc(c.prog[2][1]) /\ Enc(c.prog[2][1]) <= Enc(c.prog[3][1])}
-ReplayT(n) == {Conf(s, <<<<o1>>, <<o2>>>>) : s \in CSetups(n), o1, o2 \in OpsLt(n)}
-            \cup {c \in Dup(n) : Len(c.prog[1]) + Len(c.prog[2]) <= 4}
+ReplayT(n) == ReplayQ(n) \cup DupQ(n) \cup {c \in PairsLt(n) : Len(c.setup) <= 1}
 
 \* the scenario of DESIGN 11 item 8 (smallest configuration in which the two variants differ in behaviour)
 Known(n) == {Conf(<<U(0, 2)>>, <<<<U(2, 3)>>, <<U(2, 3)>>>>)}
